@@ -139,8 +139,9 @@ impl ModelChecker {
         let mut strategy = S::build(strategy_config);
 
         // sort starting states by increasing depth to produce shorter error traces
-        // (ties are broken by the trace to make the order independent of HashSet iteration order)
-        states.sort_by_cached_key(|x| (x.depth, format!("{:?}", x.trace)));
+        // (ties are broken by the trace and then by the ids of the pending events
+        // to make the order independent of HashSet iteration order)
+        states.sort_by_cached_key(|x| (x.depth, format!("{:?}", x.trace), x.events.ids()));
         // McSystem is always rolled back to the state before MC run
         let initial_state = self.system.get_state();
         for state in states {
